@@ -313,7 +313,7 @@ RULE = ("bounded-exhaustive: every sequence of <= 2 cuts (quick: + 400 sampled t
 
 def main(tier: str) -> int:
     return c02.main(tier, pid=PID, gen=gen_case, oracle_fn=oracle, prepare=prepare, rule=RULE,
-                    n_quick=2400, n_thorough=40000, extra_cases=extra_cases,
+                    n_quick=2000, n_thorough=40000, extra_cases=extra_cases,
                     targets=["Sim/Case.vo", "Sim/Horizon.vo", "Props/C03.vo"])
 
 
